@@ -33,6 +33,15 @@ pub fn cldr_version(repo: &str) -> String {
     v["supplemental"]["version"]["_cldrVersion"].as_str().unwrap().to_string()
 }
 
+/// one Universe per process for the replay paths (re-loading the JSON for every replayed case
+/// would make concurrent replays far too slow to overlap)
+pub fn shared(repo: &str) -> &'static Universe {
+    static U: std::sync::OnceLock<(String, Universe)> = std::sync::OnceLock::new();
+    let (r, u) = U.get_or_init(|| (repo.to_string(), Universe::new(repo)));
+    assert_eq!(r, repo, "one repository per process");
+    u
+}
+
 impl Universe {
     pub fn new(repo: &str) -> Universe {
         let lk = load_likely(repo);
